@@ -450,6 +450,13 @@ func (rd *remoteDelivery) Close() error {
 			rd.Log.Debugf("disconnected %v from %s (errored=%v,transactions=%v,disconnected before=%v)",
 				conn.LocalAddr(), conn.ServerName(), conn.errored, conn.transactions, conn.C.Client() == nil)
 			conn.Close()
+		} else if conn.policiesSkipped {
+			// Never cache connections that were established without policy
+			// checks, otherwise they will be reused for messages that
+			// do require these checks.
+			rd.Log.Debugf("disconnected %v from %s (security policies were not applied)",
+				conn.LocalAddr(), conn.ServerName())
+			conn.Close()
 		} else {
 			rd.Log.Debugf("returning connection %v for %s to pool", conn.LocalAddr(), conn.ServerName())
 			rd.rt.pool.Return(conn.domain, conn)
